@@ -52,7 +52,7 @@ func loadProg(dir string, tags string, patterns ...string) (*Prog, error) {
 		env = append(env, "GOOS="+goos, "CGO_ENABLED=0")
 	}
 	cfg := &packages.Config{
-		Mode:  packages.LoadAllSyntax,
+		Mode:  packages.LoadAllSyntax | packages.NeedModule,
 		Dir:   dir,
 		Env:   env,
 		Tests: false,
